@@ -724,7 +724,7 @@ func (fe *FnEnc) havocKeys(keys map[string]bool) {
 			fe.mem.cells[ck] = n
 		} else if strings.HasPrefix(k, "ghost:") {
 			gk := strings.TrimPrefix(k, "ghost:")
-			fe.mem.ghost[gk] = fe.s.fresh("hg", fe.g.ghostSort(gk))
+			fe.mem.ghost[gk] = fe.s.fresh("hg", fe.s.ghostSortOf(gk))
 		} else {
 			if fe.s.immutableKey(k) {
 				continue // objects of a type declared immutable (and checked to be so) keep their fields
